@@ -52,6 +52,20 @@ func corpus() []*Case {
 			Policies: []Policy{{"Netspoc-v1", []Rule{rul("r1", "10.1.2.0/24", g("g1"), "tcp_80")}}}},
 		&Config{Groups: []Group{grp("Netspoc-g1", "10.1.1.1", "10.1.1.2")}, Services: []Service{svc("tcp_80")},
 			Policies: []Policy{{"Netspoc-v1", []Rule{rul("r1", "10.1.2.0/24", g("g1"), "tcp_80")}}}}, nil)
+	// device group whose expression id is not Netspoc's "id", many addresses to drop: PATCH must address the device's expression
+	add("patch-expression-foreign-expr-id",
+		&Config{Groups: []Group{{Id: "Netspoc-g1", ExprId: "0815", RType: "IPAddressExpression",
+			Addrs: []string{"10.1.1.1", "10.1.1.2", "10.1.1.3", "10.1.1.4", "10.1.1.5"}}}, Services: []Service{svc("tcp_80")},
+			Policies: []Policy{{"Netspoc-v1", []Rule{rul("r1", "10.1.2.0/24", g("g1"), "tcp_80")}}}},
+		&Config{Groups: []Group{grp("Netspoc-g1", "10.1.1.1", "10.1.1.2")}, Services: []Service{svc("tcp_80")},
+			Policies: []Policy{{"Netspoc-v1", []Rule{rul("r1", "10.1.2.0/24", g("g1"), "tcp_80")}}}}, nil)
+	// same with incremental edits (POST remove / add address the device's expression as well)
+	add("post-foreign-expr-id",
+		&Config{Groups: []Group{{Id: "Netspoc-g1", ExprId: "e1", RType: "IPAddressExpression",
+			Addrs: []string{"10.1.1.1", "10.1.1.2", "10.1.1.3"}}},
+			Policies: []Policy{{"Netspoc-v1", []Rule{rul("r1", "10.1.2.0/24", g("g1"), "")}}}},
+		&Config{Groups: []Group{grp("Netspoc-g1", "10.1.1.1", "10.1.1.2", "10.1.1.4")},
+			Policies: []Policy{{"Netspoc-v1", []Rule{rul("r1", "10.1.2.0/24", g("g1"), "")}}}}, nil)
 	// witness: one address replaced by another (all old addresses removed before the new ones are added)
 	add("replace-single-address",
 		&Config{Groups: []Group{grp("Netspoc-g0", "10.1.1.10")}, Policies: []Policy{{"Netspoc-v1", []Rule{rul("r1", g("g0"), "ANY", "")}}}},
@@ -88,5 +102,12 @@ func corpus() []*Case {
 		&Config{},
 		&Config{Policies: []Policy{{"my-policy", []Rule{{Id: "raw9", Direction: "OUT", Action: "DROP", Seq: 5, Scope: []string{"/infra/tier-0s/v1"},
 			IPProto: "IPV4", Service: "ANY", Src: "ANY", Dst: "10.9.9.9"}}}}})
+	// raw policy whose id contains the prefix, but not at the start; the manager has its own policy of that name
+	l = append(l, &Case{Stream: "corpus:raw-policy-prefix-inside", Mode: "http",
+		Store: &Config{Groups: []Group{grp("raw-g1", "10.7.7.7")}, Policies: []Policy{{"Customer-Netspoc-dmz", []Rule{{Id: "own1",
+			Direction: "IN_OUT", Action: "ALLOW", Seq: 1, Scope: []string{"/infra/tier-0s/v1"}, Service: "ANY", Src: gpath("raw-g1"), Dst: "10.2.1.10"}}}}},
+		V4: &Config{},
+		Raw: &Config{Policies: []Policy{{"Customer-Netspoc-dmz", []Rule{{Id: "raw9", Direction: "OUT", Action: "DROP", Seq: 5,
+			Scope: []string{"/infra/tier-0s/v1"}, IPProto: "IPV4", Service: "ANY", Src: "ANY", Dst: "10.9.9.9"}}}}}})
 	return l
 }
